@@ -1,5 +1,5 @@
 (** C07 — property theorems only.  [Inv_flags] is the part of Inv_tree proved for the model
-    (proper tree, heights follow parents, FAILED_CHILD <=> failed parent, live blocks >= VALID_TREE).
+    (proper tree, heights follow parents, failed parent => FAILED_CHILD, live blocks >= VALID_TREE).
     _partial: the conjuncts "tips = usable blocks without usable child", "active chain = root..tip, all ACTIVE,
     appliedBlockCount", "connected => ancestors connected", and the operations hdr / body / rmpl are not proved;
     they are checked on the implementation after every step by harness/invariants.hpp. *)
